@@ -324,6 +324,10 @@ ECON2_SIM = dict(module="MC_Hub.tla", cfg="MC_Econ2Sim.cfg", family="econ", num=
                  quick={"MaxLen": "60"}, thorough={"MaxLen": "80"})
 FEES_SIM = dict(module="MC_Hub.tla", cfg="MC_FeesSim.cfg", family="fees", num=(60, 800), depth=240, timeout=3000,
                 quick={"MaxLen": "70"}, thorough={"MaxLen": "90"}, script_cfg="cfg_keys_prices.json")
+# governance: passed cold-storage proposals among the econ actions
+GOV_MC = dict(module="MC_Hub.tla", cfg="MC_Gov.cfg", timeout=900, quick={"MaxLen": "7"}, thorough={"MaxLen": "10", "MaxBlocks": "3"})
+GOV_SIM = dict(module="MC_Hub.tla", cfg="MC_GovSim.cfg", family="gov", num=(20, 300), depth=200, timeout=3000,
+               quick={"MaxLen": "50"}, thorough={"MaxLen": "70"})
 ATTEST_MC = dict(module="MC_Hub.tla", cfg="MC_Attest.cfg", timeout=1500, quick={"MaxLen": "6"}, thorough={"MaxLen": "9"})
 ATTEST_SIM = dict(module="MC_Hub.tla", cfg="MC_AttestSim.cfg", family="attest", num=(40, 600), depth=200, timeout=3000,
                   quick={"MaxLen": "40"}, thorough={"MaxLen": "60"})
@@ -381,7 +385,7 @@ PROPS = {
     "C17": dict(mc=[VALSET_MC], enum=[REGISTRY_ENUM], sim=[VALSET_SIM], static=["valset*.ndjson"],
                 watch=["C17:", "conf:keys"],
                 need={"SetKeys/ok": 3, "SetKeys/err": 3}),
-    "C01": dict(mc=[ECON_MC], sim=[ECON_SIM, ECON2_SIM, EVM_SIM, MINTER_SIM], static=["econ*.ndjson", "minter*.ndjson"],
+    "C01": dict(mc=[ECON_MC, GOV_MC], sim=[ECON_SIM, ECON2_SIM, GOV_SIM, EVM_SIM, MINTER_SIM], static=["econ*.ndjson", "minter*.ndjson", "gov*.ndjson"],
                 watch=["C01:", "conf:bal", "conf:sup", "C08:MinterTxMatches"],
                 need={"ExtDeposit/ok": 3, "Claim/ok": 6, "End/ok": 3, "Send/ok": 5}),
     "C02": dict(mc=[ATTEST_MC], sim=[ATTEST_SIM, ECON_SIM], static=["attest*.ndjson"],
